@@ -137,7 +137,76 @@ def hermite_block(ctx, n):
         ctx.sample(dict(kind="hermite", t0=str(t0), t1=str(t1), te=str(te), dim=len(comps)), limit=3)
 
 
+def mixed_dtype_block(ctx):
+    """queries whose dtype differs from the dtype of the array: integer queries on non-integer knots (also left of the origin), float32 /
+    float16 queries on a finer float64 / float32 grid within rounding of a knot, Python lists; the index is the first element not smaller
+    than the VALUE of the query, and the vector search agrees with the scalar one"""
+    import random as _random
+    r = _random.Random(ctx.seed * 49979687 + 17)
+    cases = []
+    for rep in range(40 if ctx.quick() else 400):
+        n = r.choice([2, 3, 5, 9, 17])
+        kind = r.choice(["int-on-float", "float32-on-float64", "float16-on-float32", "int32-list"])
+        if kind in ("int-on-float", "int32-list"):
+            arr = np.array(sorted(set(round(r.uniform(-6, 6) * 4) / 4 + r.choice([0.0, 0.25, 0.5, 0.3]) for _ in range(n))), dtype=np.float64)
+            qs = np.array([r.randint(-7, 7) for _ in range(6)], dtype=r.choice([np.int64, np.int32, np.int8]))
+        elif kind == "float32-on-float64":
+            base = r.uniform(-3, 3)
+            arr = np.array(sorted(set(base + k * 2.0 ** -30 for k in r.sample(range(-40, 40), n))), dtype=np.float64)
+            qs = np.array([np.float32(x) for x in r.sample(list(arr), min(3, len(arr)))] + [np.float32(base)], dtype=np.float32)
+        else:
+            base = r.uniform(-3, 3)
+            arr = np.array(sorted(set(np.float32(base + k * 2.0 ** -14) for k in r.sample(range(-40, 40), n))), dtype=np.float32)
+            qs = np.array([np.float16(x) for x in r.sample(list(arr), min(3, len(arr)))] + [np.float16(base)], dtype=np.float16)
+        if len(arr) < 2:
+            continue
+        exact_arr = [Fr(float(x)) for x in arr]
+        try:
+            vec = [int(i) for i in U.search_bisection_vec(arr if kind != "int32-list" else list(arr), qs if kind != "int32-list" else [int(v) for v in qs])]
+        except Exception as e:
+            ctx.oracle("bisect-mixed-dtype-runs", False, dict(kind="bisect-mixed", variant=kind, arr=arr.tolist(), q=qs.tolist()), what="raised %r" % (e,))
+            continue
+        for j, v in enumerate(qs):
+            want = spec_index(exact_arr, Fr(float(v)))
+            sc = int(U.search_bisection(arr, v))
+            inp = dict(kind="bisect-mixed", variant=kind, arr=[float(x) for x in arr], array_dtype=str(arr.dtype), q=float(v), query_dtype=str(qs.dtype))
+            ctx.oracle("bisect-spec-vector", vec[j] == want, inp, key="bisect-mixed-dtype", what="search_bisection_vec returns %d for a %s query on a %s array, spec %d" % (vec[j], qs.dtype, arr.dtype, want))
+            ctx.oracle("bisect-spec-scalar", sc == want, inp, key="bisect-mixed-dtype", what="search_bisection returns %d for a %s query on a %s array, spec %d" % (sc, qs.dtype, arr.dtype, want))
+        ctx.count("bisect-mixed:" + kind)
+
+
+def inplace_time_block(ctx):
+    """one Hermite piece queried repeatedly with ONE time array that the caller advances in place between the calls (t += dt), 0-d and
+    1-element arrays, values and gradients interleaved: every answer belongs to the time the array holds when the call is made"""
+    import random as _random
+    r = _random.Random(ctx.seed * 67867967 + 17)
+    for rep in range(20 if ctx.quick() else 200):
+        t0 = r.uniform(-2, 2)
+        t1 = t0 + r.choice([-1, 1]) * r.uniform(0.2, 2.0)
+        a, b, c, d = (r.uniform(-2, 2) for _ in range(4))
+        P = lambda t: a + b * t + c * t * t + d * t ** 3
+        dP = lambda t: b + 2 * c * t + 3 * d * t * t
+        piece = INTERP.CubicHermiteInterp(t0, t1, np.array([P(t0)]), np.array([P(t1)]), np.array([dP(t0)]), np.array([dP(t1)]))
+        tq = np.array(t0 - 0.3) if r.random() < 0.5 else np.array([t0 - 0.3])
+        step = (t1 - t0) / 5.0
+        inp = dict(kind="hermite-inplace-time", t0=t0, t1=t1, coeffs=[a, b, c, d], shape=list(tq.shape))
+        worst = 0.0
+        for k in range(8):
+            tv = float(np.reshape(tq, (-1,))[0])
+            if r.random() < 0.5:
+                got, want = piece(tq), P(tv)
+            else:
+                got, want = piece.grad(tq), dP(tv)
+            worst = max(worst, abs(float(np.reshape(got, (-1,))[0]) - want))
+            tq += step
+        ctx.oracle("hermite-cubic-exact", worst <= 1e-9 * (1 + abs(a) + abs(b) + abs(c) + abs(d)) * 30, dict(inp, worst=worst), key="hermite-answers-an-earlier-time",
+                   what="queried with a time array advanced in place, the piece answered for another time (error %.2e)" % worst)
+        ctx.count("hermite-inplace-time")
+
+
 def run(ctx):
+    mixed_dtype_block(ctx)
+    inplace_time_block(ctx)
     # 1. exhaustive small scope (both tiers: it is cheap)
     grid = list(range(9))
     queries = [Fr(k, 2) for k in range(-1, 18)]
